@@ -5,7 +5,7 @@
 (* The harness logs, per call: event, arguments, outcome (ok/err/panic),   *)
 (* result handle, the projected post-state, the position index and what    *)
 (* the public API answers.  No expected value is computed outside TLC.     *)
-EXTENDS StamApi, StamRead, Json, IOUtils
+EXTENDS StamApi, StamRead, StamSerial, Json, IOUtils
 
 Rec == ndJsonDeserialize(IOEnv.TRACE)
 
@@ -89,6 +89,30 @@ Mutating(r) ==
                                               api |-> IF okState /\ r.api.has THEN ApiExpected(exp.st, r.api) ELSE <<>>])>>)
             /\ Resync(r, logged)
 
+\* C05 / C11 / C15: the store was written and read back; the history continues on the reloaded store
+SafeStateOK(logged) == NoDangling(logged) /\ StateOK(logged)
+RoundTrip(r) ==
+    LET logged == CanonState(r.post)
+        fmt == r.a.format
+        okOutcome == r.outcome = "ok" /\ r.projok
+        okInv   == okOutcome /\ SafeStateOK(logged)
+        okView  == okInv /\ RoundTripOK(st, logged, fmt)
+        \* C05 only: writing the reloaded store again gives identical output (C11 and C15 do not promise that)
+        okAgain == ~okOutcome \/ fmt # "json" \/ r.x.d1 = r.x.d2
+        okPos   == ~okView \/ PosOK(logged, r.pos)
+        okApi   == ~okView \/ ~r.api.has \/ ApiOK(logged, r.api)
+    IN IF okOutcome /\ okInv /\ okView /\ okAgain /\ okPos /\ okApi
+       THEN st' = logged /\ UNCHANGED <<skip, bad>>
+       ELSE /\ bad' = bad + 1
+            /\ PrintT(<<"MISMATCH", l, ToJson([roundtrip |-> TRUE, outcome |-> "ok",
+                                              ok |-> [outcome |-> okOutcome, inv |-> okInv, view |-> okView, again |-> okAgain,
+                                                      pos |-> okPos, api |-> okApi],
+                                              view |-> View(st, fmt),
+                                              got |-> IF okInv THEN View(logged, fmt) ELSE [res |-> <<>>, sets |-> <<>>, anns |-> <<>>],
+                                              st |-> IF fmt = "cbor" THEN st ELSE InitState,
+                                              api |-> IF okView /\ r.api.has THEN ApiExpected(logged, r.api) ELSE <<>>])>>)
+            /\ IF okOutcome THEN Resync(r, logged) ELSE st' = st /\ skip' = FALSE
+
 ReadOnly(r) ==
     LET v == IF r.ev = "Lookup" THEN ReadOK(st, r)
              ELSE IF r.ev \in ReadEvents
@@ -105,6 +129,7 @@ Step ==
     /\ LET r == Rec[l]
        IN IF r.ev = "Reset" THEN st' = InitState /\ skip' = FALSE /\ UNCHANGED bad
           ELSE IF skip THEN UNCHANGED <<st, skip, bad>> /\ PrintT(<<"SKIPPED", l>>)
+          ELSE IF r.ev \in RoundTripEvents THEN RoundTrip(r)
           ELSE IF r.ev \in MutatingEvents THEN Mutating(r)
           ELSE ReadOnly(r)
 
